@@ -472,6 +472,10 @@ static bool runActive(Rng& r, const ActiveCase& c, const std::string& tag, const
     if ((unsigned)ri.exchanges > maxEx + 0 && false) report("c02-too-many-exchanges", std::to_string(ri.exchanges));
   }
   if (sent.size() > sentUsed) report("c02-sent-report-without-success", std::to_string(sent.size()) + " md_send reports, " + std::to_string(sentUsed) + " successful requests");
+  long answerReports = 0;
+  for (auto& m : w.lis.msgs) if (m.dir == md_answer) answerReports++;
+  if (!c.answers.empty() && answerReports != mon.answersCompleted && mon.viol.empty())
+    report("c15-answer-report-count", std::to_string(answerReports) + " md_answer reports for " + std::to_string(mon.answersCompleted) + " completed answers; bus " + logHex(w.bus.log).substr(0, 600));
   for (auto& m : w.lis.msgs) if (m.dir == md_answer && c.answers.empty()) report("c15-answer-report-without-registration", telStr(m.master, m.slave));
   if (g_verbose) {
     printf("BUS %s\n", logHex(w.bus.log).c_str());
@@ -554,6 +558,89 @@ static void modeActive(long ncases, const std::string& which) {
   }
 }
 
+static void modeC15(long ncases) {
+  for (long ci = 0; ci < ncases; ci++) {
+    if (g_only >= 0 && ci != g_only) continue;
+    Rng r(g_seed * 1000003ULL + (uint64_t)ci + 1500);
+    ActiveCase c;
+    c.cfg.own = MASTERS[r.below(25)];
+    c.cfg.enhanced = r.chance(1, 2);
+    c.cfg.answer = true;
+    c.cfg.lockCount = r.pick(std::vector<unsigned>{0, 3});
+    uint8_t ownSlave = (uint8_t)(c.cfg.own + 5);
+    // registered answers
+    int na = r.range(1, 8);
+    std::vector<uint8_t> pbsbPool = {0xb5, 0x09, 0x07, 0x04, 0xb5, 0x11};
+    for (int k = 0; k < na; k++) {
+      AnswerDef a;
+      a.anySrc = r.chance(1, 2);
+      a.src = MASTERS[r.below(25)];
+      if (a.src == c.cfg.own) a.src = (uint8_t)(c.cfg.own == 0x10 ? 0x30 : 0x10);
+      int dk = r.range(0, 9);
+      a.dst = dk < 5 ? ownSlave : dk < 8 ? c.cfg.own : (uint8_t)r.pick(std::vector<uint8_t>{0x08, 0x15, 0x52});
+      size_t pi = r.below(3) * 2;
+      a.pb = pbsbPool[pi]; a.sb = pbsbPool[pi + 1];
+      size_t idl = (size_t)r.range(0, 4);
+      if (!c.answers.empty() && r.chance(1, 2)) {      // share a prefix with an earlier answer
+        a.id = c.answers[r.below((uint32_t)c.answers.size())].id;
+        if (a.id.size() > idl) a.id.resize(idl);
+      }
+      while (a.id.size() < idl) a.id.push_back(r.pick(std::vector<uint8_t>{0x00, 0x01, 0x0d, 0xa9, 0xaa, r.byte()}));
+      if (specIsMaster(a.dst)) { size_t tl = (size_t)r.range(0, 6); a.resp.push_back((uint8_t)tl); for (size_t i = 0; i < tl; i++) a.resp.push_back(0); }   // only the length counts
+      else { size_t sn = (size_t)r.range(0, 16); a.resp.push_back((uint8_t)sn); for (size_t i = 0; i < sn; i++) a.resp.push_back(biasedByte(r)); }
+      // keys must be unique (a later registration with the same key replaces the earlier one)
+      bool dup = false;
+      for (auto& o : c.answers) if (o.dst == a.dst && o.pb == a.pb && o.sb == a.sb && o.id == a.id && ((o.anySrc == a.anySrc && (a.anySrc || o.src == a.src)) || specIsMaster(a.dst))) dup = true;   // for master destinations: one entry per ID (which of a source-specific and an any-source entry with different tail lengths wins is not specified)
+      if (!dup) c.answers.push_back(a);
+    }
+    // telegrams from foreign masters
+    Item s; s.kind = Item::SYN;
+    int nt = r.range(2, 10);
+    for (int k = 0; k < nt; k++) {
+      const AnswerDef& a = c.answers[r.below((uint32_t)c.answers.size())];
+      Telegram t;
+      t.qq = a.anySrc || r.chance(1, 4) ? MASTERS[r.below(25)] : a.src;
+      if (t.qq == c.cfg.own) t.qq = (uint8_t)(c.cfg.own == 0x10 ? 0x30 : 0x10);
+      t.zz = r.chance(1, 8) ? (uint8_t)r.pick(std::vector<uint8_t>{ownSlave, c.cfg.own, 0x08, 0x15}) : a.dst;
+      if (t.zz == t.qq) t.zz = ownSlave;
+      t.pb = a.pb; t.sb = a.sb;
+      if (r.chance(1, 10)) t.sb ^= 1;
+      std::vector<uint8_t> d = a.id;
+      int how = r.range(0, 9);
+      if (how < 4) { size_t extra = specIsMaster(a.dst) && !r.chance(1, 4) ? a.resp[0] : (size_t)r.range(0, 12); for (size_t i = 0; i < extra; i++) d.push_back(biasedByte(r)); }
+      else if (how < 5 && !d.empty()) d.resize(r.below((uint32_t)d.size()));
+      else if (how < 7 && !d.empty()) { d[r.below((uint32_t)d.size())] ^= (uint8_t)(1 << r.below(8)); for (int i = r.range(0, 6); i > 0; i--) d.push_back(r.byte()); }
+      else if (how < 8) { for (int i = r.range(0, 16 - (int)d.size()); i > 0; i--) d.push_back(0x00); }
+      if (d.size() > 16) d.resize(16);
+      t.data = d;
+      std::vector<uint8_t> m = {t.qq, t.zz, t.pb, t.sb, (uint8_t)t.data.size()};
+      m.insert(m.end(), t.data.begin(), t.data.end());
+      Item it; it.kind = Item::TELEGRAM; it.arbitrates = true; it.expectAnswer = true;
+      bool badCrc = r.chance(1, 6);
+      it.bytes = specWire(m, badCrc ? (uint8_t)r.range(1, 255) : 0);
+      it.origins.assign(it.bytes.size(), 'F');
+      if (badCrc || r.chance(1, 3)) it.repeatBytes = specWire(m);
+      for (int q = 0; q < 2; q++) it.answerReaction[q] = r.chance(2, 3) ? 0 : r.range(1, 3);
+      c.items.push_back(s);
+      c.items.push_back(it);
+      for (int i = r.range(0, 2); i > 0; i--) c.items.push_back(s);
+    }
+    c.desc = "c15 answers=" + std::to_string(c.answers.size()) + " telegrams=" + std::to_string(nt);
+    current("c15 case " + std::to_string(ci));
+    st.n["evaluations"]++;
+    ActiveResult res;
+    runActive(r, c, "case=" + std::to_string(ci), g_filter.empty() ? "c15" : g_filter, &res);
+    st.n["answers_by_host"] += res.answers;
+    if (res.answers > 0) st.n["distinct_nontrivial"]++;
+    if (ci < 2 || g_verbose) {
+      std::string ad;
+      for (auto& a : c.answers) ad += (a.anySrc ? "**" : hex1(a.src)) + ">" + hex1(a.dst) + ":" + hex1(a.pb) + hex1(a.sb) + "/" + hex(a.id) + "=" + hex(a.resp) + " ";
+      st.sample("samples", c.cfg.str() + " answers: " + ad);
+      if (g_verbose) printf("ANSWERS %s\n", ad.c_str());
+    }
+  }
+}
+
 int main(int argc, char** argv) {
   Args a(argc, argv);
   installDeathCallback();
@@ -567,6 +654,7 @@ int main(int argc, char** argv) {
   long n = a.num("n", 100);
   if (mode == "c01") modeC01(r, n);
   if (mode == "c02" || mode == "c03") modeActive(n, mode);
+  if (mode == "c15") modeC15(n);
   st.emit();
   return g_violations ? 1 : 0;
 }
